@@ -185,3 +185,34 @@ def eval_term(t, leaf):
     if h == "call" and t[1].endswith(("::from", "::into")) and len(t[2]) == 1:
         return eval_term(t[2][0], leaf)
     return leaf(t)
+
+
+def eval_cmp(t, leaf):
+    """Truth value of a comparison term (or of an integer/bool term: non-zero)."""
+    s = cmp_sides(t)
+    if s:
+        x, y = eval_term(s[1], leaf), eval_term(s[2], leaf)
+        return {"Eq": x == y, "Ne": x != y, "Lt": x < y, "Le": x <= y, "Gt": x > y, "Ge": x >= y}[s[0]]
+    if isinstance(t, tuple) and t and t[0] == "Not":
+        return not eval_cmp(t[1], leaf)
+    return eval_term(t, leaf) != 0
+
+
+def path_guards(body, c, bb, term_at):
+    """Two-way tests whose outcome is fixed on every path to `bb`: [(guard block, term, required truth)].
+    `term_at(block)` gives the term of that block's switch operand."""
+    out = []
+    for b in body.blocks:
+        if b.cleanup or b.term.k != "switch" or b.idx not in c.reach:
+            continue
+        t = b.term
+        if not (len(t.targets) == 1 and t.targets[0][0] == 0):
+            continue
+        z, nz = t.targets[0][1], t.otherwise
+        if z == nz:
+            continue
+        for edge, truth in ((nz, True), (z, False)):
+            other = z if truth else nz
+            if len(c.pred[edge]) == 1 and (c.dominates(edge, bb) or edge == bb) and not (c.dominates(other, bb) or other == bb):
+                out.append((b.idx, term_at(b), truth))
+    return out
